@@ -27,6 +27,8 @@ import GoProbeModel.Spec.C02
 import GoProbeModel.Spec.C26
 import GoProbeModel.Spec.C25
 import GoProbeModel.Spec.C10
+import GoProbeModel.Spec.C29
+import GoProbeModel.Spec.C11
 
 /-!
 `gpjudge`: executable specs. Reads lines `<Cxx> <case fields…> => <implementation output>` and
@@ -61,5 +63,7 @@ def main : IO Unit := DriverLoop.runJudge [
   ("C02", C02.judge),
   ("C26", C26.judge),
   ("C25", C25.judge),
-  ("C10", C10.judge)
+  ("C10", C10.judge),
+  ("C29", C29.judge),
+  ("C11", C11.judge)
 ]
